@@ -261,6 +261,11 @@ fn read_both<T: Rec>(prefix: Option<String>, data: &[u8], plan: &[usize], emit: 
             if a5 != e5 { emit(a("ORACLE-FAIL:into_records-step_by-differs")); }
         }
     }
+    if a1.len() <= data.len() + 2 {
+        if let Some(w) = walk_check(&|| Reader::new(Frag { data: data.to_vec(), pos: 0, plan: plan.to_vec(), k: 0 }, prefix_copy.clone()).into_records::<T>().map(item)) {
+            emit(a(format!("ORACLE-FAIL:into_records-walked-by-{}", w)));
+        }
+    }
     // unfragmented delivery must give the same items
     let mut r3 = Reader::new(data, None::<String>.or(r1_prefix_dummy()));
     let _ = &mut r3;
